@@ -13,5 +13,6 @@ func Specs() map[string]*PropSpec {
 	add(&PropSpec{ID: "C05", Explanation: "lockset discipline", Rules: []RuleRef{rR15, rR14pair}})
 	add(&PropSpec{ID: "C13", Explanation: "deadlock freedom", Rules: []RuleRef{rR14pair, rR14order, rR15m}})
 	add(&PropSpec{ID: "C06", Explanation: "lazy expiry", Rules: []RuleRef{rR21, rR22}})
+	add(&PropSpec{ID: "C03", Explanation: "reply framing", Rules: []RuleRef{rR8, rR13, rR12c}})
 	return m
 }
